@@ -1,7 +1,8 @@
 (* C12 - time slicing returns exactly the requested window and pieces re-join.
    Statements only; proofs in Proofs/SliceProofs.v.  Integer ticks; full_score = every chord has at least one
    part and every part lasts as long as its chord (the statement's guard), durations >= 0. *)
-From ML Require Import Model.Types gen.Tables Model.Pitch Model.Rel Model.Render Model.Slice Proofs.RenderProofs Proofs.SliceProofs Proofs.SliceContent.
+From ML Require Import Spec.RenderSpec.
+From ML Require Import Model.Types gen.Tables Model.Pitch Model.Rel Model.Render Model.Slice Proofs.RenderProofs Proofs.SliceProofs Proofs.SliceContent Proofs.SliceRejoin.
 From Coq Require Import Lia.
 Open Scope Z_scope.
 Open Scope list_scope.
@@ -54,6 +55,17 @@ Proof. exact clip_some. Qed.
 Theorem C12_chord_window_content : forall c a b, rparts c <> [] -> Forall (fun p => positive (snd p)) (rparts c) -> a < b ->
   chord_between c a b = Some (mkRC (rc c) (drop_empty_drums (map (fun p => (fst p, clip_list (snd p) 0 a b)) (rparts c)))).
 Proof. exact chord_between_content. Qed.
+
+(* re-joining: the windows [a, t) and [t, b) of a part lying inside [a, b], one after the other, are the part itself with the
+   note held across t (if any) written as its head followed by a continuation ... *)
+Theorem C12_windows_rejoin : forall v time a t b, positive v -> a <= time -> time + part_dur v <= b ->
+  clip_list v time a t ++ clip_list v time t b = split_at v time t.
+Proof. exact windows_rejoin. Qed.
+
+(* ... which sounds exactly the same: same sounding notes (C03), whatever follows and whatever the reference pitch *)
+Theorem C12_rejoin_sounds_the_same : forall c v time a t b tail ref, positive v -> a <= time -> time + part_dur v <= b ->
+  sounding ref (part_items (clip_list v time a t ++ clip_list v time t b) c time ++ tail) = sounding ref (part_items v c time ++ tail).
+Proof. exact rejoin_sounds_the_same. Qed.
 
 (* non-vacuity *)
 Example C12_ex :
